@@ -1,12 +1,13 @@
+\* exploration that starts from a prepared state: a WRKChain and a BEACON registered, both at their limits
 SPECIFICATION Spec
 CONSTANTS
-  Pre <- NoPre
-  FailingGov = TRUE
-  MaxHeight = 4
+  Pre <- SweepPrefix
+  FailingGov = FALSE
+  MaxHeight = 5
   MaxTx = 3
   MaxFail = 1
   MaxReg = 1
-  MaxRec = 2
+  MaxRec = 6
   GenCap <- SmallCap
   Presets <- PresetsQuick
 VIEW View
